@@ -21,6 +21,7 @@ import PubgrubProofs.Freshness
 import PubgrubProofs.NonEmpty
 import PubgrubProofs.CanonInstances
 import PubgrubProofs.RangeAnyOrder
+import PubgrubProofs.RangeAnyOrder2
 
 namespace Pubgrub.C12
 open Pubgrub Pubgrub.Solver VersionSet
@@ -109,5 +110,18 @@ theorem C12_range_requests_wf (W : World P (Range V) V M) (hW : W.RangesWF) (deb
   range_requests_wf W hW debug fuel root rv s p set h
 
 end AnyOrder
+
+/-! ### `Range V` over ANY linear order (second batch of pull-backs, RangeAnyOrder2) -/
+section AnyOrder2
+variable {P V M Pr E : Type} [DecidableEq P] [LinearOrder V] [LE Pr] [DecidableLE Pr]
+
+theorem C12_range_choose_set_is_prioritized_set (W : World P (Range V) V M) (hW : W.RangesWF)
+    (debug : Bool) (fuel : Nat) (root : P) (rv : V) (as : List (Answer P (Range V) V M Pr E))
+    (hok : AnswersOK W debug fuel root rv as) (k : Nat) (p : P) (s : (Range V))
+    (hk : (Solver.trace debug fuel root rv as)[k]? = some (.chooseVersion p s)) :
+    ∃ pr, lastPrio (Solver.trace debug fuel root rv as) as k p = some (s, pr) :=
+  by apply range_C12_choose_set_is_prioritized_set (P := P) (V := V) (M := M) (Pr := Pr) (E := E) <;> assumption
+
+end AnyOrder2
 
 end Pubgrub.C12
